@@ -6,6 +6,9 @@ HERE = os.path.dirname(os.path.dirname(os.path.abspath(__file__)))
 TECH = "deterministic simulation with fault injection: seeded search over operation/fault histories against a reference model, ddmin-minimised replay files"
 
 CLAIMED = {
+ "C10": dict(section="5.5", level="exploration",
+   text="Seeded histories on long-lived PCA models (vector-backed and PointCloud-, Image-, MaskedImage-backed; n on both sides of d so both pca() branches run; centred and uncentred; inplace on/off; optional max_n_components at build): integer and variance-fraction settings of n_active_components in and out of range, trim_components(n) and trim_components(), copies that diverge. After every step every model in the pool is checked against the harness' own SVD spectrum and a two-integer bookkeeping model (kept k, active a): counts and shapes, orthonormal components, positive descending eigenvalues equal to the spectrum and to the sample variance along each component, mean, constant original variance, variance / noise variance / ratios, kept + discarded = original, equality (up to per-component sign) with a freshly built model with max_n_components=k and n_active=a, project(instance(w)) = w, idempotent orthogonal reconstruction, orthogonal project_out residual, exact reconstruction of every training sample when everything is kept, fraction form selects the smallest count reaching the fraction. Sampling, not proof.",
+   note="Trusted: numpy.linalg.svd as the independent spectrum; spectra are generated well separated (ratio 0.72); out-of-range settings may raise or clamp (the model follows the SUT when it reports a valid count); data are always passed as copies."),
  "C03": dict(section="5.1", level="exploration",
    text="Seeded programs of compose calls over a pool of long-lived transforms of one dimensionality (the 7 homogeneous classes, the 5 alignment variants, TransformChain, thin-plate splines, piecewise affine, WithDims; 2D and 3D): compose_before/after whose results join the pool and are composed further, the in-place variants (accepted or rejected), self-composition, compose_after_from_vector_inplace, copies, pseudoinverses, decompose+recompose. After every step every pool member is compared on probe points with the harness' own matrix algebra (homogeneous family; also h_matrix) or with sequential application of frozen snapshots of its primitive members (law; operands unchanged by later operations on composites); operand digests before = after every non-in-place and every rejected call; two homogeneous operands must give one invertible Homogeneous that is neither a chain nor an alignment; class honesty predicates (Affine last row, Similarity L^T L = s^2 I, Rotation det>0 and no translation, Translation L = I, scales diagonal) on every result and on every accepted in-place target; decompose() folds back to the same map. Thorough additionally enumerates all ordered class pairs x before/after x in-place/not followed by a further composition. Sampling, not proof.",
    note="Trusted: NumPy matrix algebra; single-transform apply() of non-homogeneous primitives (TPS, PWA, WithDims) is used on deep-copied snapshots as reference (their purity is C02/C09). A member of a chain is never again an in-place target, a chain is never composed in place with itself, and compositions whose model matrix is ill-conditioned (cond > 1e5) or nearly projectively singular on the probe points are skipped."),
